@@ -270,6 +270,9 @@ type wcase struct {
 	Mode string  `json:"mode"`
 	Pre  []int   `json:"pre"`
 	Vs   [][]int `json:"vs"`
+	// layp
+	Pssds bool   `json:"pssds"`
+	Pbase string `json:"pbase"`
 	// layb
 	Mask    []int `json:"mask"`
 	FlagPos int   `json:"flagpos"`
@@ -327,6 +330,23 @@ type laybRec struct {
 	Err   string           `json:"err"`
 	Reenc []int            `json:"reenc"`
 	Dec   map[string][]int `json:"dec"`
+}
+
+// layp: a value decoded into a destination that holds a previously decoded value
+type laypRec struct {
+	K     string           `json:"k"`
+	M     string           `json:"m"`
+	Pssds bool             `json:"pssds"`
+	Pbase string           `json:"pbase"`
+	Ssds  bool             `json:"ssds"`
+	Base  string           `json:"base"`
+	Prev  map[string][]int `json:"prev"` // what the destination held (itself the result of a real decode)
+	Vals  map[string][]int `json:"vals"` // the value that was encoded
+	Enc   []int            `json:"enc"`
+	Err   string           `json:"err"`
+	Dec   map[string][]int `json:"dec"`  // decoded into the reused destination
+	Dec0  map[string][]int `json:"dec0"` // decoded into a zero value
+	Diff  []string         `json:"diff"` // fields of dec that differ from vals (for the report)
 }
 
 type lvmObs struct {
@@ -523,6 +543,50 @@ func runLay(c wcase, base string, rng *rand.Rand) *layRec {
 			r.Canon0 = true
 		}
 	}
+	return r
+}
+
+func runLayp(c wcase, pbase, base string, rng *rand.Rand) *laypRec {
+	a := adaptors[c.M]
+	r := &laypRec{K: "layp", M: c.M, Pssds: c.Pssds, Pbase: pbase, Ssds: c.Ssds, Base: base,
+		Prev: map[string][]int{}, Vals: map[string][]int{}, Enc: []int{}, Dec: map[string][]int{}, Dec0: map[string][]int{}, Diff: []string{}}
+	pv := baseStruct(a, c.M, pbase, c.Pssds, rng)
+	a.canon(pv)
+	cv := baseStruct(a, c.M, base, c.Ssds, rng)
+	a.canon(cv)
+	r.Vals = valsOf(cv)
+	r.Err = guard(func() {
+		penc, _, msg := a.encodeExact(pv)
+		if msg != "nil" {
+			panic(msg)
+		}
+		enc, _, msg := a.encodeExact(cv)
+		if msg != "nil" {
+			panic(msg)
+		}
+		r.Enc = ints(enc)
+		// the destination first receives the previous datagram, then this one
+		dst := reflect.New(a.typ).Interface()
+		if err := a.decode(dst, penc); err != nil {
+			panic("decode prev: " + err.Error())
+		}
+		r.Prev = valsOf(dst)
+		if err := a.decode(dst, enc); err != nil {
+			panic("decode: " + err.Error())
+		}
+		r.Dec = valsOf(dst)
+		fresh := reflect.New(a.typ).Interface()
+		if err := a.decode(fresh, enc); err != nil {
+			panic("decode: " + err.Error())
+		}
+		r.Dec0 = valsOf(fresh)
+		for name := range r.Vals {
+			if !reflect.DeepEqual(r.Vals[name], r.Dec[name]) {
+				r.Diff = append(r.Diff, name)
+			}
+		}
+		slices.Sort(r.Diff)
+	})
 	return r
 }
 
@@ -767,6 +831,12 @@ func TestC14Wire(t *testing.T) {
 				out.Emit(runLay(c, "rand", rng))
 				counts["lay"]++
 			}
+		case "layp":
+			out.Emit(runLayp(c, c.Pbase, c.Base, rng))
+			out.Emit(runLayp(c, "rand", c.Base, rng))
+			out.Emit(runLayp(c, c.Pbase, "rand", rng))
+			out.Emit(runLayp(c, "rand", "rand", rng))
+			counts["layp"] += 4
 		case "layb":
 			n := 8
 			if vio.Thorough() {
